@@ -266,11 +266,19 @@ func genC18(cs *CaseSet, rng *Rng, tier string, dir string) {
 				if rng.Bool() {
 					must(os.WriteFile(filepath.Join(env.Cfg, "ThreadedNews.yaml.tmp"), []byte("Categories:\n  x:\n    Na"), 0644))
 				}
-				fresh, err := mobius.NewThreadedNewsYAML(filepath.Join(env.Cfg, "ThreadedNews.yaml"))
-				if err != nil {
-					continue
+				// a restart builds the store anew; a reload (SIGHUP, the API's reload) makes the running store read its
+				// file again - both must reproduce the same tree
+				if rng.Intn(3) == 0 {
+					if err := mgr().Load(); err != nil {
+						continue
+					}
+				} else {
+					fresh, err := mobius.NewThreadedNewsYAML(filepath.Join(env.Cfg, "ThreadedNews.yaml"))
+					if err != nil {
+						continue
+					}
+					env.Srv.ThreadedNewsMgr = fresh
 				}
-				env.Srv.ThreadedNewsMgr = fresh
 				ops = append(ops, mkOp(6, "restart"))
 				observe(0)
 			default: // article list reply (field 321)
